@@ -37,6 +37,12 @@ impl IppRequestResponse {
     pub closed spec fn sattrs(&self) -> IppAttributes { self.attributes }
     pub closed spec fn spayload(&self) -> IppPayload { self.payload }
 }
+/// the spec accessors are the fields (crate-internal view, for code that builds the struct directly)
+pub(crate) broadcast proof fn lemma_req_view(r: IppRequestResponse)
+    ensures #![trigger r.shdr()] #![trigger r.sattrs()] #![trigger r.spayload()]
+        r.shdr() == r.header && r.sattrs() == r.attributes && r.spayload() == r.payload,
+{
+}
 } // verus!'''},
     {'op': 'fn', 'path': 'IppRequestResponse::header', 'ret': 'r', 'spec': '    ensures *r == self.shdr(),'},
     {'op': 'fn', 'path': 'IppRequestResponse::attributes', 'ret': 'r', 'spec': '    ensures *r == self.sattrs(),'},
